@@ -43,7 +43,7 @@ def jobs(tier):
     return [{'ob': 'symbolic_lines', 'harness': 'sym', 'k': 2 if q else 3, 'cap': 6 if q else 5, 'splits': [3, 6, 9, 12, 15],
              'query_timeout_s': 120 if q else 600, 'job_timeout_s': 900 if q else 3000,
              'bounds': '%d lines x <=%d chars over %r' % (2 if q else 3, 6 if q else 5, ALPH)},
-            {'ob': 'structured_real', 'harness': 'real', 'k': 3 if q else 4, 'skip_tokens': [7, 8] if q else [], 'splits': [2, 4, 6, 8], 'query_timeout_s': 60,
+            {'ob': 'structured_real', 'harness': 'real', 'k': 3 if q else 4, 'skip_tokens': [7, 8], 'splits': [2, 4, 6, 8], 'query_timeout_s': 60,
              'bounds': '%d lines, %d tokens x %d indentations, real tokenizer and ast' % (3 if q else 4, len(TOKENS), len(INDENTS))}]
 
 
